@@ -8,7 +8,7 @@ from . import filegen
 from .common import Driver
 
 THEOREM_MODULES = ["PygacModel.Theorems.C14"]
-RULE = ("KLM passes with channel-select sequences (random over {0,1,2}, all 3a, all 3b, alternating, 3b with transition "
+RULE = ("KLM passes with channel-select sequences (random over {0,1,2}, all 3a, all 3b, all transition, 5-line passes, alternating, 3b with transition "
         "lines and no 3a line, single line) compared line by line with all-3a and all-3b reference passes of identical "
         "counts and telemetry, and with the Lean model's symbolic delivery; POD six-slot layout. A case = (pass, line); "
         "non-trivial = select value differs from the previous line or is 2; distinct by (format, sequence kind, seed, line)")
@@ -37,6 +37,12 @@ def sequence(kind, n, rng):
         s = np.zeros(n, dtype=int)
         s[n // 2:] = 1
         s[n // 2 - 1] = 2
+        return s
+    if kind == "all-transition":          # a segment cut inside the 3a/3b switch-over
+        return np.full(n, 2, dtype=int)
+    if kind == "3b-then-transition":      # two values only: 0 and 2
+        s = np.zeros(n, dtype=int)
+        s[n // 2:] = 2
         return s
     raise ValueError(kind)
 
@@ -106,7 +112,8 @@ def check_pod(ctx, fmt, n, seed):
 
 def run(ctx):
     drv = []
-    kinds = ["random", "all3a", "all3b", "alternate", "3b+transition", "3a+transition", "switch-once"]
+    kinds = ["random", "all3a", "all3b", "alternate", "3b+transition", "3a+transition", "switch-once", "all-transition",
+             "3b-then-transition"]
     k = 0
     for kind in kinds:
         check_klm(ctx, "klmGac", 24, kind, ctx.seed * 1000 + k, drv)
@@ -114,6 +121,9 @@ def run(ctx):
     check_klm(ctx, "klmLac", 9, "random", ctx.seed * 1000 + k, drv)
     check_klm(ctx, "klmLac", 7, "3b+transition", ctx.seed * 1000 + k + 1, drv)
     check_klm(ctx, "klmGac", 6, "all3a", ctx.seed * 1000 + k + 2, drv)
+    for j, kind in enumerate(["all-transition", "all3b", "all3a"]):      # shortest calibratable passes (one PRT cycle) and a LAC segment
+        check_klm(ctx, "klmGac", 5, kind, ctx.seed * 1000 + k + 10 + j, drv)
+    check_klm(ctx, "klmLac", 5, "all-transition", ctx.seed * 1000 + k + 14, drv)
     check_klm(ctx, "klmGac", 60, "random", ctx.seed * 1000 + k + 3, drv)
     # a NOAA-16 pass lying entirely inside a listed scan-motor interval (2004-01-14): the later masking step must not
     # undo the 3a / 3b blanking
